@@ -168,3 +168,22 @@ func checkLinearBounds(p *core.Program, r *core.Report, rule string, fns []*ssa.
 }
 
 func isSliceType(t types.Type) bool { _, ok := t.Underlying().(*types.Slice); return ok }
+
+// sliceBoundsProven: 0 <= low <= high <= len(x) of one slice expression follow, by linear
+// arithmetic, from the comparisons that dominate it.
+func sliceBoundsProven(p *core.Program, fn *ssa.Function, sl *ssa.Slice, b *ssa.BasicBlock) bool {
+	lp := core.NewLinProver(p, fn, stableFieldFn(p))
+	lo, hi, l := core.LinConst(0), lp.LenOf(sl.X), lp.LenOf(sl.X)
+	if sl.Low != nil {
+		lo = lp.Of(sl.Low)
+	}
+	if sl.High != nil {
+		hi = lp.Of(sl.High)
+	}
+	for _, goal := range [][]core.Lin{core.NegLE(core.LinConst(0), lo), core.NegLE(lo, hi), core.NegLE(hi, l)} {
+		if proved, _ := lp.Decide(b, goal, core.Lin{}, core.Lin{}); !proved {
+			return false
+		}
+	}
+	return true
+}
